@@ -106,6 +106,14 @@ def verify_function(qualname):
                 rec = {"name": ob.name, "kind": ob.kind, "function": qualname, "status": "undecided", "backend": "solver-error", "ms": 0.0, "note": str(exc)}
             recs.append(rec)
         desc.setdefault("callee_contracts_used", sorted(eng.used_contracts))
+        # vacuity guard: a function whose precondition is contradictory has NO feasible return path.
+        # Individual infeasible paths (mutually exclusive branch combinations) are normal.
+        covers = [r for r in recs if r["kind"] == "cover" and r["name"].startswith(qualname.split("@")[0] + tag + ":")]
+        if covers and any(r["status"] == "discharged" for r in covers):
+            for r in covers:
+                if r["status"] == "vacuous":
+                    r["status"] = "discharged"
+                    r["note"] = "infeasible path (its obligations hold trivially); other return paths of the function are feasible"
     # CPython differential check of the encoder on this very function (DESIGN section 10)
     try:
         from . import policy, selftest
